@@ -268,4 +268,193 @@ def bssClause (l : Array α) (lo hi : α) (L R : Nat) : String :=
 
 end bssSpec
 
+
+/-! ## linear-time executable forms
+
+The definitions above are the subject of the theorems; the ones below are what the compiled driver runs.
+Each is proved equal to its reference definition (core Lean only) and registered with `@[csimp]`, so every
+caller of `buildIndex`, `pageSearchC`, `binarySearchSlice` gets the fast code without any change, and
+every theorem about the reference definitions applies to what is executed.
+
+* `buildIndexFast`: one pass over the sorted ions (the reference recomputes `drop (p*B)` for every page:
+  `O(n²/B)`);
+* `bssFast`: the second binary search runs in place on `l[L..]` (the reference copies the sub-slice);
+* `pageSearchFast`: the visited pages are walked in one pass (`O(right_page·B)` list steps per query);
+* `pageSearchA`: fragments held in an `Array` (`O(log n + visited pages·B)` per query) with
+  `pageSearchA_eq : pageSearchA masses minv frags.toArray B q = pageSearchC masses minv frags B q`
+  for callers that keep the array. -/
+
+/-- one pass over consecutive chunks of `B`: `body (l.take B) ++ body ((l.drop B).take B) ++ …` (`k` chunks) -/
+def flatChunks {β γ : Type} (body : List β → List γ) (B : Nat) : Nat → List β → List γ
+  | 0, _ => []
+  | k+1, l => body (l.take B) ++ flatChunks body B k (l.drop B)
+
+theorem flatChunks_eq {β γ : Type} (body : List β → List γ) (B : Nat) (l0 : List β) :
+    ∀ (k a : Nat), flatChunks body B k (l0.drop (a*B)) =
+      (List.range' a k).flatMap (fun p => body ((l0.drop (p*B)).take B)) := by
+  intro k
+  induction k with
+  | zero => intro a; simp [flatChunks]
+  | succ k ih =>
+    intro a
+    have e : (l0.drop (a*B)).drop B = l0.drop ((a+1)*B) := by
+      rw [List.drop_drop, Nat.add_mul, Nat.one_mul]
+    simp only [flatChunks, List.range'_succ, List.flatMap_cons, e, ih (a+1)]
+
+theorem filterMap_eq_flatMap {β γ : Type} (f : β → Option γ) (l : List β) :
+    l.filterMap f = l.flatMap (fun a => (f a).toList) := by
+  induction l with
+  | nil => rfl
+  | cons a t ih =>
+    simp only [List.filterMap_cons, List.flatMap_cons, ih]
+    cases f a <;> simp
+
+section
+variable [LE α] [DecidableLE α]
+
+/-- `buildIndex` in one pass over the sorted ions (linear apart from the sorts) -/
+def buildIndexFast (B : Nat) (ions : List (Frag α)) : Option (Array α × List (Frag α)) :=
+  if B = 0 then none else
+  let sorted := ions.mergeSort leMz
+  let np := nPages sorted.length B
+  let minv := flatChunks (fun c => (c.head?.map (·.mz)).toList) B np sorted
+  let frags := flatChunks (fun c => c.mergeSort lePep) B np sorted
+  some (minv.toArray, frags)
+
+theorem buildIndex_eq_fast (B : Nat) (ions : List (Frag α)) : buildIndex B ions = buildIndexFast B ions := by
+  unfold buildIndex buildIndexFast
+  split
+  · rfl
+  · have h1 := flatChunks_eq (fun c : List (Frag α) => (c.head?.map (·.mz)).toList) B (ions.mergeSort leMz)
+      (nPages (ions.mergeSort leMz).length B) 0
+    have h2 := flatChunks_eq (fun c : List (Frag α) => c.mergeSort lePep) B (ions.mergeSort leMz)
+      (nPages (ions.mergeSort leMz).length B) 0
+    simp only [Nat.zero_mul, List.drop_zero] at h1 h2
+    simp only [h1, h2, filterMap_eq_flatMap, slice, List.range_eq_range']
+end
+
+@[csimp] theorem buildIndex_csimp : @buildIndex = @buildIndexFast := by
+  funext α _ _ B ions
+  exact buildIndex_eq_fast B ions
+
+
+theorem lowerBound_extract [LT α] [DecidableLT α] (l : Array α) (x : α) (L : Nat) :
+    ∀ (f lo hi : Nat), hi + L ≤ l.size →
+      lowerBound (l.extract L l.size) x f lo hi + L = lowerBound l x f (lo + L) (hi + L) := by
+  intro f
+  induction f with
+  | zero => intro lo hi _; simp [lowerBound]
+  | succ f ih =>
+    intro lo hi hh
+    by_cases hlt : lo < hi
+    · have hlt' : lo + L < hi + L := by omega
+      have hmid : (lo + L + (hi + L)) / 2 = (lo + hi) / 2 + L := by omega
+      have hget : (l.extract L l.size)[(lo+hi)/2]? = l[(lo+hi)/2 + L]? := by
+        rw [Array.getElem?_extract]
+        have : (lo+hi)/2 < min l.size l.size - L := by omega
+        rw [if_pos this, Nat.add_comm]
+      rw [lowerBound, lowerBound]
+      simp only [hlt, hlt', if_true, hmid, hget]
+      cases l[(lo+hi)/2 + L]? with
+      | none => rfl
+      | some y =>
+        simp only
+        split
+        · have := ih ((lo+hi)/2+1) hi hh
+          rw [this]; congr 1; omega
+        · exact ih lo ((lo+hi)/2) (by omega)
+    · have hlt' : ¬ lo + L < hi + L := by omega
+      rw [lowerBound, lowerBound]
+      simp only [hlt, hlt', if_false]
+
+theorem walkLeft_le' [LT α] [DecidableLT α] (l : Array α) (low : α) (s : Nat) : walkLeft l low s ≤ s := by
+  induction s with
+  | zero => simp [walkLeft]
+  | succ i ih =>
+    unfold walkLeft
+    split
+    · split <;> omega
+    · omega
+
+section
+variable [LT α] [DecidableLT α] [LE α] [DecidableLE α]
+
+/-- `binary_search_slice` with the concrete search, the second search done in place on `l[L..]`
+    (no copy of the sub-slice) -/
+def bssFast (l : Array α) (lo hi : α) : Nat × Nat :=
+  let rLo := binSearch l lo
+  let L := walkLeft l lo (rLo - 1)
+  bss l lo hi rLo (lowerBound l hi (l.size - L + 1) L l.size - L)
+
+theorem bssFast_eq (l : Array α) (lo hi : α) : bssWith binSearch l lo hi = bssFast l lo hi := by
+  unfold bssWith bssFast
+  simp only
+  congr 1
+  generalize walkLeft l lo (binSearch l lo - 1) = L
+  unfold binSearch
+  by_cases hL : L ≤ l.size
+  · have hs : (l.extract L l.size).size = l.size - L := by simp [Array.size_extract]
+    have := lowerBound_extract l hi L (l.size - L + 1) 0 (l.size - L) (by omega)
+    rw [hs]
+    have e : l.size - L + L = l.size := by omega
+    rw [e, Nat.zero_add] at this
+    omega
+  · have hs : (l.extract L l.size).size = 0 := by simp [Array.size_extract]; omega
+    rw [hs]
+    have e : l.size - L + 1 = 1 := by omega
+    rw [e]
+    have hn : ¬ L < l.size := by omega
+    simp [lowerBound, hn]
+end
+
+section
+variable [LT α] [DecidableLT α] [LE α] [DecidableLE α]
+
+/-- what `page_search` does with one page's slice `s` -/
+def pageBody (masses : Array α) (q : Q α) (pLo pHi : Nat) (s : List (Frag α)) : List (Frag α) :=
+  let ix := bssFast (s.map (·.pep)).toArray pLo pHi
+  ((s.drop ix.1).take (ix.2 - ix.1)).filter (edgeFilter masses q pLo pHi)
+
+/-- `pageSearchC` walking the visited pages in one pass over the fragment list: `O(right_page · B)` list
+    steps per query instead of `O(pages · n)`, no sub-slice copies in the binary searches -/
+def pageSearchFast (masses minv : Array α) (frags : List (Frag α)) (B : Nat) (q : Q α) : List (Frag α) :=
+  let pre := bssFast masses q.preLo q.preHi
+  let pg := bssFast minv q.fragLo q.fragHi
+  flatChunks (pageBody masses q pre.1 pre.2) B (pg.2 - pg.1) (frags.drop (pg.1 * B))
+
+theorem pageSearchC_eq_fast (masses minv : Array α) (frags : List (Frag α)) (B : Nat) (q : Q α) :
+    pageSearchC masses minv frags B q = pageSearchFast masses minv frags B q := by
+  unfold pageSearchC pageSearch pageSearchFast
+  simp only [bssFast_eq, flatChunks_eq, pageBody, slice]
+
+/-- **Array-backed `page_search`**: the fragment list held as an `Array` (random access to a page, like the
+    Rust slice `&fragments[page*B .. min((page+1)*B, len)]`): `O(log + visited pages · B)` per query. -/
+def pageSearchA (masses minv : Array α) (frags : Array (Frag α)) (B : Nat) (q : Q α) : List (Frag α) :=
+  let pre := bssFast masses q.preLo q.preHi
+  let pg := bssFast minv q.fragLo q.fragHi
+  (List.range' pg.1 (pg.2 - pg.1)).flatMap fun p =>
+    pageBody masses q pre.1 pre.2 (frags.extract (p*B) (p*B + B)).toList
+
+omit [LT α] [DecidableLT α] [LE α] [DecidableLE α] in
+theorem extract_toList_eq_slice (frags : List (Frag α)) (B p : Nat) :
+    (frags.toArray.extract (p*B) (p*B + B)).toList = slice frags B p := by
+  simp [slice]
+
+/-- the Array-backed search is the List-based model `pageSearchC` (hence every theorem about it applies) -/
+theorem pageSearchA_eq (masses minv : Array α) (frags : List (Frag α)) (B : Nat) (q : Q α) :
+    pageSearchA masses minv frags.toArray B q = pageSearchC masses minv frags B q := by
+  unfold pageSearchA pageSearchC pageSearch
+  simp only [bssFast_eq, extract_toList_eq_slice, pageBody]
+
+end
+
+@[csimp] theorem pageSearchC_csimp : @pageSearchC = @pageSearchFast := by
+  funext α _ _ _ _ masses minv frags B q
+  exact pageSearchC_eq_fast masses minv frags B q
+
+@[csimp] theorem binarySearchSlice_csimp : @binarySearchSlice = @bssFast := by
+  funext α _ _ _ _ l lo hi
+  exact bssFast_eq l lo hi
+
+
 end Sage.C03
